@@ -83,7 +83,8 @@ class C06(Check):
         "key, message and tweak bytes come from a seeded generator; only structure and corruption "
         "positions are exhaustive",
         "quick tier flips one bit in the first, last and every 8th byte of each field; thorough in every byte",
-        "signatures that verify only under a lenient reading (high-S, non-strict DER) and tweaks whose "
+        "signatures that verify only under a lenient reading (high-S, non-minimal DER lengths / integer "
+        "padding; a field with bytes after the signature structure is no signature) and tweaks whose "
         "HMAC is 0 or >= n are dont_care",
         "the reported value of a valid target is extract(message) of docs/attestation.md (the whole "
         "message for ui and signer) and the declared tweak",
@@ -454,7 +455,11 @@ class C06(Check):
             # lenient-only signatures
             run(variant(p, signature=G.high_s(sig, G.N_K1).hex()), "high-s")
             run(variant(p, signature=G.padded_der(sig).hex()), "padded-der")
-            run(variant(p, signature=(sig + b"\x00").hex()), "trailing-byte")
+            # every binary field followed / preceded by bytes that belong to nothing
+            for fld, raw in (("signature", sig), ("message", msg)) + ((("tweak", tweak),) if tweak else ()):
+                for lab, nb in G.extra_bytes_variants(raw):
+                    if fld == "signature" or self.thorough or lab in ("+00", "+itself", "00+"):
+                        run(variant(p, **{fld: nb.hex()}), "extra-bytes:" + fld)
 
     # ---- (c) forests, one corrupted element, several targets -------------------------------
     def run_forest(self, forest, stats, vs):
